@@ -97,6 +97,30 @@ func verifC13(maxF, maxS int, mode13 string) {
 	}
 }
 
+// verifC13AllDirective: under --tx-mode all a per-file txmode directive is an
+// error. Whatever position the offending file has, the command fails and the
+// database is exactly as before the command: the files executed before the
+// directive was met live in the one global transaction, which must not commit.
+func verifC13AllDirective() {
+	nf := verifChoice("files", 3) + 1
+	ns := verifChoice("stmts", 2) + 1
+	sh := verifShape{nf: nf, ns: ns, directive: make([]string, nf), failFile: -1, failStmt: -1}
+	bad := verifChoice("directive-file", nf)
+	sh.directive[bad] = []string{txModeNone, txModeFile}[verifChoice("directive", 2)]
+	env := verifNewEnv()
+	defer env.close()
+	env.setDir(sh)
+	err := env.apply(txModeAll, false, 0, "")
+	verifReach("rejected")
+	verifAssert(err != nil, "a txmode directive under --tx-mode all fails the command")
+	got := env.snapshot()
+	verifObserve("journal", verifJoin(got.journal))
+	verifAssert(len(got.journal) == 0, "in all mode a failing command leaves the database exactly as before: nothing of the earlier files is committed")
+	verifAssert(len(got.revs) == 0, "in all mode a failing command leaves no revision behind")
+}
+
+func VerifHarness_C13_alldirective() { verifC13AllDirective() }
+
 // verifC13Grow: the fix of a failed file also appends a statement to it (the
 // statement count of a partially applied file changes between the runs). The
 // re-run must complete, record the file with its new total, and a further run
